@@ -124,8 +124,11 @@ class CParser:
         self._scope_stack.append(dict())
 
     def _pop_scope(self) -> None:
-        assert len(self._scope_stack) > 1
-        self._scope_stack.pop()
+        # The lexer reports every '}' it produces, including unbalanced ones
+        # in malformed input. Never pop the file-level scope; the parser
+        # rejects the stray '}' with a ParseError when it reaches the token.
+        if len(self._scope_stack) > 1:
+            self._scope_stack.pop()
 
     def _add_typedef_name(self, name: str, coord: Optional[Coord]) -> None:
         """Add a new typedef name (ie a TYPEID) to the current scope"""
